@@ -178,6 +178,7 @@ def _run_history(ctx, case):
     last = None
     computes = 0
     bufs = None
+    copied = False
     for step, op in enumerate(case['ops']):
         if op[0] == 'update':
             k = int(op[1])
@@ -202,6 +203,17 @@ def _run_history(ctx, case):
             updates += 1
             size_one |= k == 1
             last = None
+        elif op[0] == 'copy':
+            # the analysis is forked at a checkpoint: a deep copy (or a pickle round trip) of the object goes on with the remaining operations.
+            # Objects that cannot be copied (compiled lookup functions inside) are simply kept.
+            import copy
+            import pickle
+            try:
+                sut.o = copy.deepcopy(sut.o) if op[1] == 'deepcopy' else pickle.loads(pickle.dumps(sut.o))
+                ctx.count('continued_on_a_copy')
+                copied = True
+            except Exception:
+                ctx.count('copy_not_supported:' + kind)
         else:
             if pos == 0:
                 continue
@@ -229,6 +241,8 @@ def _run_history(ctx, case):
               'word_ndim:%d' % (data.ndim - 1)]
     if case.get('same_buffer'):
         labels.append('same_buffer_refilled')
+    if copied:
+        labels.append('continued_on_a_copy')
     if compute_between:
         labels.append('compute_between_updates')
     if size_one:
@@ -350,6 +364,8 @@ def histories(draw, kind, precision, tdtypes, large=False):
         k = min(equal_k, left) if style == 'equal' else 1 if style == 'one' else left if style == 'rest' else 16384 if style == 'pow2' else draw(st.integers(1, min(left, 4))) if style == 'small' else draw(st.integers(1, left))
         ops.append(['update', k])
         left -= k
+        if left > 0 and draw(st.integers(0, 11)) == 0:
+            ops.append(['copy', draw(st.sampled_from(['deepcopy', 'pickle']))])
         c = draw(st.sampled_from(['none', 'none', 'compute', 'compute2', 'compute+compute']))
         if c == 'compute+compute':
             ops.extend([['compute', 0], ['compute', 0]])
